@@ -5,6 +5,8 @@ CONSTANTS
   FixHandoff = TRUE
   FixSend = TRUE
   FixReader = TRUE
+  Banned = {}
+  FixFlushOnStop = TRUE
   MaxResets = 1
   WithStop = TRUE
   Det = FALSE
